@@ -618,7 +618,7 @@ func ruleP10Accessors(p *Prog, r *Report) {
 	pp := p.fn("klog/app/cli/util", "PrettifyParsingError")
 	if r.anchorFn(rule, pp, "util.PrettifyParsingError") {
 		used := map[string]bool{}
-		eachInstr(pp, func(in ssa.Instruction) {
+		eachInstrIn(withAnons(pp), func(in ssa.Instruction) {
 			c, ok := in.(ssa.CallInstruction)
 			if !ok || !c.Common().IsInvoke() || typeNameOf(c.Common().Value.Type()) != "Error" {
 				return
@@ -636,7 +636,7 @@ func ruleP10Accessors(p *Prog, r *Report) {
 		}
 		// caret line: Repeat(" ", Position()) then Repeat("^", Length())
 		var reps []string
-		eachInstr(pp, func(in ssa.Instruction) {
+		eachInstrIn(withAnons(pp), func(in ssa.Instruction) {
 			if c, ok := in.(ssa.CallInstruction); ok && staticCallee(c) != nil && staticCallee(c).String() == "strings.Repeat" {
 				s, _ := constString(c.Common().Args[0])
 				n, _, _, _ := methodCall(c.Common().Args[1])
